@@ -529,8 +529,10 @@ def value(name):
 
 
 def ite(c, a, b):
-    """leaf-wise If for Sym/python scalars"""
+    """leaf-wise If for Sym/python scalars (a numeric predicate means non-zero, as in jnp.where / lax.cond)"""
     c = _lift(c)
+    if z3.is_arith_sort(c.sort()):
+        c = c != 0
     if z3.is_true(z3.simplify(c)):
         return a
     if z3.is_false(z3.simplify(c)):
